@@ -72,7 +72,8 @@ pub struct State {
     pub map_refusals: usize,
     /// optional address-hint substitution for mmap(0, ..) calls: consumed front to back
     pub mmap_hints: Vec<usize>,
-    /// placement steering for mmap(0, ..) calls, consumed front to back: 1 = hint directly
+    /// placement steering for mmap(0, ..) calls, consumed front to back (4 = directly above what is
+    /// still mapped of the run the previous mapping belongs to, see `regions`): 1 = hint directly
     /// above the most recent successful anonymous mapping, 2 = directly below it, 3 = 8 MiB
     /// below it (non-contiguous), other = none
     /// (a hint without MAP_FIXED is only a preference: any placement is legal kernel behaviour)
@@ -81,6 +82,9 @@ pub struct State {
     pub mmap_hint_cycle: Vec<u8>,
     pub mmap_hint_cycle_pos: usize,
     pub last_map: (usize, usize),
+    /// what the calls seen through the interposer have mapped and not unmapped since: (start, len),
+    /// unmerged, kept current through munmap and mremap (for placement mode 4)
+    pub regions: Vec<(usize, usize)>,
 }
 
 thread_local! {
@@ -191,6 +195,7 @@ pub fn set_mmap_hint_cycle(h: Vec<u8>) {
         s.mmap_hint_cycle = h;
         s.mmap_hint_cycle_pos = 0;
         s.last_map = (0, 0);
+        s.regions.clear();
     });
 }
 
@@ -198,6 +203,7 @@ pub fn set_mmap_hint_modes(h: Vec<u8>) {
     with_state(|s| {
         s.mmap_hint_modes = h;
         s.last_map = (0, 0);
+        s.regions.clear();
     });
 }
 
@@ -219,6 +225,40 @@ fn account(n: usize, args: &[usize; 6], ret: usize) {
         } else {
             UNMAPPED.fetch_add(args[1] - args[2], Ordering::Relaxed);
         }
+    }
+}
+
+fn cut(regions: &mut Vec<(usize, usize)>, a: usize, l: usize) {
+    let mut out = Vec::with_capacity(regions.len() + 1);
+    for &(s, n) in regions.iter() {
+        let (e, ce) = (s + n, a + l);
+        if ce <= s || a >= e {
+            out.push((s, n));
+            continue;
+        }
+        if a > s {
+            out.push((s, a - s));
+        }
+        if ce < e {
+            out.push((ce, e - ce));
+        }
+    }
+    *regions = out;
+}
+
+fn track_regions(regions: &mut Vec<(usize, usize)>, n: usize, args: &[usize; 6], ret: usize) {
+    if regions.len() > 4096 {
+        regions.clear(); // placement steering only: never grow without bound
+    }
+    if n == nr::MMAP {
+        cut(regions, ret, args[1]);
+        regions.push((ret, args[1]));
+    } else if n == nr::MUNMAP {
+        cut(regions, args[0], args[1]);
+    } else if n == nr::MREMAP {
+        cut(regions, args[0], args[1]);
+        cut(regions, ret, args[2]);
+        regions.push((ret, args[2]));
     }
 }
 
@@ -309,7 +349,20 @@ unsafe fn dispatch_slow(st: &mut State, n: usize, mut args: [usize; 6], nargs: u
         };
         let (la, ll) = st.last_map;
         if la != 0 {
-            if m == 1 {
+            if m == 4 {
+                // directly above what is STILL mapped of the run of mappings the previous one belongs
+                // to: after the owner has given back the tail of that run (a trim), the new mapping
+                // lands exactly at the run's new end
+                let mut end = 0usize;
+                let mut cur = st.regions.iter().filter(|r| r.0 <= la).map(|r| *r).max_by_key(|r| r.0);
+                while let Some((a, l)) = cur {
+                    end = a + l;
+                    cur = st.regions.iter().find(|r| r.0 == end).copied();
+                }
+                if end != 0 {
+                    args[0] = end;
+                }
+            } else if m == 1 {
                 args[0] = la + ll;
             } else if m == 2 && la > args[1] {
                 args[0] = la - args[1];
@@ -355,6 +408,9 @@ unsafe fn dispatch_slow(st: &mut State, n: usize, mut args: [usize; 6], nargs: u
         account(n, &args, ret);
         if n == nr::MMAP && !is_err(ret) {
             st.last_map = (ret, args[1]);
+        }
+        if !is_err(ret) {
+            track_regions(&mut st.regions, n, &args, ret);
         }
     }
     if (n == nr::MMAP || n == nr::MREMAP) && is_err(ret) {
